@@ -2,6 +2,7 @@ package main
 
 import (
 	"fmt"
+	"math"
 	"math/rand"
 	"strconv"
 	"strings"
@@ -244,6 +245,16 @@ func (handlerComp) Gen(r *rand.Rand, tier string, n int) []*wire.Case {
 	mk("d-empty", mkh(0), mkh(1), mkh(2), mkh(3), em(0, 1), em(1, 2), em(2, 3), em(3, 4), em(9, 5))
 	mk("d-plain-order", mkh(0), sub(0, 1, 5, ""), sub(0, 2, 1, ""), sub(0, 3, 3, ""), em(0, 7))
 	mk("d-prio-order", mkh(1), sub(0, 1, 5, ""), sub(0, 2, -1, ""), sub(0, 3, 3, ""), sub(0, 4, 3, ""), sub(0, 5, -1, ""), em(0, 7))
+	// priorities at the ends of the integer range: their order is the order of the integers (a comparison by difference wraps around)
+	for k := 1; k <= 3; k++ {
+		script := ""
+		if k == 3 {
+			script = "cancel"
+		}
+		mk(fmt.Sprintf("d-extreme-priorities-%d", k), mkh(k), sub(0, 1, 1, ""), sub(0, 2, math.MinInt, script), sub(0, 3, -1, script), sub(0, 4, math.MaxInt, ""), sub(0, 5, 2, ""), sub(0, 6, math.MinInt+1, ""),
+			sub(0, 7, math.MaxInt-1, ""), sub(0, 8, math.MinInt, ""), em(0, 1), em(0, 2))
+		mk(fmt.Sprintf("d-extreme-priorities-late-%d", k), mkh(k), sub(0, 1, -1, script), sub(0, 2, math.MaxInt, ""), em(0, 1), sub(0, 3, -2, ""), sub(0, 4, math.MaxInt, ""), sub(0, 5, 0, ""), em(0, 2))
+	}
 	mk("d-mutable", mkh(2), sub(0, 1, 2, "mut:10"), sub(0, 2, 1, "mut:1"), sub(0, 3, 3, "mut:100"), em(0, 0), em(0, 5))
 	mk("d-cancel", mkh(3), sub(0, 1, 1, ""), sub(0, 2, 2, "cancel"), sub(0, 3, 3, ""), em(0, 1), sub(0, 4, 0, "cancel"), em(0, 2))
 	mk("d-reentrant", mkh(0), mkh(2), sub(0, 1, 0, "emitdec:0"), sub(0, 2, 0, ""), sub(0, 3, 0, "emitdec:1"), sub(1, 4, 1, "mut:-1;emitdec:1"), sub(1, 5, 2, "emitdec:1"), em(0, 1), em(0, 2), em(1, 2))
@@ -302,7 +313,7 @@ func (handlerComp) Gen(r *rand.Rand, tier string, n int) []*wire.Case {
 						}
 					}
 				}
-				ops = append(ops, sub(h, lid, pick(r, 0, 0, 1, 1, 2, -1, 100, -100), strings.Join(acts, ";")))
+				ops = append(ops, sub(h, lid, pick(r, 0, 0, 1, 1, 2, -1, 100, -100, 0, 1, 2, -1, math.MaxInt, math.MinInt, math.MaxInt-1, math.MinInt+1), strings.Join(acts, ";")))
 			} else {
 				x := r.Intn(100)
 				if reentrant {
